@@ -7,7 +7,7 @@ T: harness-generated long elbows (arms up to 40, random spacings, all slope pair
    the family by TLC (Trace_Elbow) and then replayed the same way."""
 import numpy as np
 
-from harness import monitor, numeric, par
+from harness import growth, monitor, numeric, par
 
 
 def _detect(item):
@@ -108,6 +108,8 @@ def run(ctx):
                 ctx.violation(clause, {"pts": e["pts"], "corner": e["corner"], "mono": e["mono"]}, detail,
                               match="%s:%s" % (clause, detail.get("detector")))
     ctx.extra["mismatches_by_detector"] = {"%s/%s" % k: v for k, v in seen.items()}
+    # ---- growth beyond C03: Kneedle without smoothing on ALL small integer curves (notes only)
+    growth.kneedle(ctx)
 
 
 def replay(ctx, obj):
